@@ -9,7 +9,9 @@ Writes seeded/RESULTS.md. Usage: tools/run_seeded.py [id ...]
 import json, os, subprocess, sys, time
 
 ROOT = os.path.dirname(os.path.dirname(os.path.abspath(__file__)))
-REPO = "/repo"
+# the repository under test is whatever ROOT/repo links to: /repo for /verif itself, a private worktree for a
+# clone made with tools/agent_ws.sh (so that long seeded runs do not block work on /repo)
+REPO = os.path.realpath(os.path.join(ROOT, "repo")) if os.path.lexists(os.path.join(ROOT, "repo")) else "/repo"
 
 
 def sh(cmd, cwd=None, timeout=None):
